@@ -24,6 +24,8 @@ TEMPLATES = {
     'XB$': ['X', 'B', '$'], 'B$': ['B', '$'], 'SX$': ['S', 'X', '$'], 'uS': ['u', 'S'], 'uE': ['u', 'E'],
     # a start tag that spans two lines, alone and followed by further tags in the same comment
     'M': ['M'], 'MS': ['M', 'S'], 'MnS': ['M', 'n', 'S'], 'ME': ['M', 'E'], 'tMS': ['t', 'M', 'S'],
+    # ... and over three lines (one attribute per line)
+    'L': ['L'], 'LS': ['L', 'S'], 'tL': ['t', 'L'],
 }
 
 
@@ -44,6 +46,11 @@ class CommentSpec:
                 k += 1
             elif it == 'M':         # start tag with a line break between its attributes
                 tag = b'<block name="b%d"\n   a="1">' % k
+                self.events.append(('S', len(text), len(tag), 'b%d' % k))
+                text += tag + b' '
+                k += 1
+            elif it == 'L':         # start tag over three lines
+                tag = b'<block name="b%d"\n   a="1"\n     bb="22">' % k
                 self.events.append(('S', len(text), len(tag), 'b%d' % k))
                 text += tag + b' '
                 k += 1
